@@ -724,7 +724,7 @@ func c13count(c *core.Ctx) {
 				}
 				switch core.ExprStr(kv.Key) {
 				case "nat":
-					if strings.Contains(core.ExprStr(kv.Value), "getNatural(") {
+					if strings.Contains(core.ExprStr(kv.Value), c.P.CurrentName("(*json.scanner).getNatural")+"(") {
 						natAt = i
 					}
 				case "exp":
